@@ -14,6 +14,9 @@ from ..pool import pmap
 
 def judge_point(name, params, limit, seeds):
     """returns (stats, failure dict|None)"""
+    if max(params['shape']) > 13:
+        limit = 1  # large-size sweep: the default outcome only (the subject is the wall geometry, not the sampling)
+        seeds = ()
     outs, info = RS.outcomes(name, params, limit)
     st = {'resets': len(outs), 'states': 0, 'valueerror': 0, 'complete': 1 if info['complete'] else 0, 'replays': 0}
     shipped = RS.is_shipped(name, params)
@@ -37,6 +40,24 @@ def judge_point(name, params, limit, seeds):
         if m:
             return fail(m, choices, 'malformed')
     st['states'] = len(keys)
+    if params['shape'][0] * params['shape'][1] <= 16 or shipped:
+        # parameter validation must not depend on the library's debug flag
+        from gym_gridverse.debugging import reset_gv_debug
+
+        reset_gv_debug(False)
+        try:
+            for choices, res in outs[:3]:
+                res2 = RS.call(name, params, ChoiceRng(choices))
+                a = res if isinstance(res, tuple) else sdesc(res)
+                b = res2 if isinstance(res2, tuple) else sdesc(res2)
+                if (isinstance(a, tuple) and a[:1] == ('EXC',)) != (isinstance(b, tuple) and b[:1] == ('EXC',)) or (not isinstance(res, tuple) and a != b):
+                    st2, f = fail(f'with the debug flag off the same call gives a different result '
+                                  f'({"state" if not isinstance(res2, tuple) else res2[1]} instead of {"state" if not isinstance(res, tuple) else res[1]})',
+                                  choices, 'debug_dependent')
+                    f['kind'] = 'reset_debug'
+                    return st2, f
+        finally:
+            reset_gv_debug(True)
     if keys and (shipped or params['shape'][0] * params['shape'][1] <= 36):
         for choices, res in outs[:2]:
             m = judge_reset_twice(name, params, choices)
@@ -128,6 +149,17 @@ def _work(job):
 
 
 def replay(case):
+    if case['kind'] == 'reset_debug':
+        from gym_gridverse.debugging import reset_gv_debug
+
+        p = _params(case['params'])
+        r1 = RS.call(case['name'], p, ChoiceRng(case['script']))
+        reset_gv_debug(False)
+        r2 = RS.call(case['name'], p, ChoiceRng(case['script']))
+        reset_gv_debug(True)
+        a = r1 if isinstance(r1, tuple) else sdesc(r1)
+        b = r2 if isinstance(r2, tuple) else sdesc(r2)
+        return None if (a == b or (isinstance(r1, tuple) and isinstance(r2, tuple))) else 'result depends on the debug flag'
     if case['kind'] == 'reset_twice':
         return judge_reset_twice(case['name'], _params(case['params']), case['script'])
     res = RS.call(case['name'], _params(case['params']), ChoiceRng(case['script']))
